@@ -484,6 +484,8 @@ func (c04) malform(r *core.Rand) [][2]string {
 		{"second-version", pre + name + " (>= 1.0)" + r.Pick([]string{" ", "", " [amd64] "}) + "(<< 2.0)" + post},
 		{"second-arch", pre + name + " [amd64]" + r.Pick([]string{" ", "", " (>= 1) ", " <stage1> "}) + "[i386]" + post},
 		{"unknown-operator", pre + name + " (" + badop + sp + "1.0)" + post},
+		// no operator at all (what is left of "(= 1.0)" after a one-character deletion)
+		{"unknown-operator", pre + name + " (" + sp + r.Pick([]string{"1.0", "2:1.0~rc1", "0", "1.0-1"}) + ")" + post},
 		{"two-names", pre + name + r.Pick([]string{" ", "  ", " (>= 1) ", " [amd64] ", " <stage1> ", "\n", "\r\n", "\t", "\n ", " \n", "\n\n"}) + other + post},
 		{"two-names", r.Pick([]string{"", other + ", ", other + " | "}) + name + r.Pick([]string{"\n", "\r\n", "\t", " "}) + other + r.Pick([]string{"", ", " + name, "\n"})},
 	}
